@@ -56,6 +56,18 @@ FIXED = [
   "`(defseq v (S-A-()))` panicked in parse_sequence_keys (`expect(\"had to be pressed to be released\")`); found by the thorough tier (20 M inputs, seed 7)"),
  ("F38", "C08", "fix: starting a second cancel-on-press macro no longer shortens the first one",
   "the cancel-on-press window was overwritten by the most recently started cancel-on-press macro: starting a short one while a long one ran closed the window early, so a later key press no longer cancelled the long macro (`d:b d:d t:10 d:c`)"),
+ ("F21", "C14", "fix: an OS key repeat is not forwarded for a modifier that unmod / unshift has taken away",
+  "a repeat was forwarded for a key that is up at the OS: with an `unmod` / `unshift` key held (which releases the modifier at the OS while the layout still holds it) the repeat of the key holding that modifier came out as a repeat of the modifier"),
+ ("F39", "C14", "fix: an OS key repeat prefers a held non-modifier key over a chord",
+  "the de-duplicated output list of a key does not always put a chord's key after its modifiers (`(multi b S-b)` -> [b, lsft]); the repeat came out as a repeat of the modifier although the letter was held down"),
+ ("F40", "C14", "fix: an OS key repeat looks for a held non-modifier everywhere",
+  "a key put down by a transparent action nested in a switch / fork / tap-hold / tap-dance is not in the layer's output list; a modifier of that list which happened to be held was repeated instead of the key (`(switch (lalt) RS-e break () (multi _ _) break)`, hold it, hold a one-shot RS-k, repeat)"),
+ ("F41", "C07", "fix: kanata is not idle until its list of pressed keys matches the layout",
+  "is_idle compared the keys pressed at the OS with the layout's as sets; a tick that only reorders the list (a cancelled macro's LAlt that `M-A-q` on another key also holds) was skipped by the blocking loop and the later release of LGui/LAlt came out in the other order"),
+ ("F42", "C14", "fix: an OS key repeat applies the overrides to the same keys as the output does",
+  "with `(defoverrides (lctl k) (lalt min))`, lctl held and `(unshift k)` held, the OS sees LAlt+Minus; the repeat lookup applied the overrides without the unmod/unshift keys and forwarded a repeat of lctl as LCtrl (and of the unshift key as K), keys that are up"),
+ ("F43", "C14", "fix: the repeat outputs of a chord key list only the chords that key takes part in",
+  "every chord of a defchords group was recorded as a possible output of every key of the group; with `(x) q (y) w (x y) kp2`, x and y held as separate chords, the repeat of y was forwarded as q (held by x) instead of w"),
 ]
 log = subprocess.check_output(["git", "-C", "/repo", "log", "--format=%h %s"]).decode().splitlines()
 out = []
